@@ -17,6 +17,17 @@ TRUSTED = [
 THEOREMS = {}
 
 
+REPLAY = None    # the "replay" object of a replay file when ./check runs with --replay: the engines then execute
+                 # that input alone (same judges, same comparison) instead of generating inputs
+
+
+def replay_history():
+    r = REPLAY
+    if r and "config" in r and "ops" in r:
+        return {"cfg": r["config"], "ops": r["ops"], "accts": hist.accts_from_config(r["config"]), "opts": {}}
+    return None
+
+
 def prove(rep, pid):
     """Re-check the Lean side: build, forbid sorry & co, audit axioms of the property's theorems."""
     mod, thms = THEOREMS[pid]
@@ -214,6 +225,11 @@ def run_hist_property(rep, tier, seed, wd, pid, kinds, opts, sizes, judges=(), e
         hs += extra_hist(keys, rng)
     hs += engines.gen_histories(rng, keys, n_hist, n_ops, opts)
     procs = opts.get("gomaxprocs", [None])
+    if REPLAY is not None:
+        rh = replay_history()
+        hs = [rh] if rh else []
+        procs = [REPLAY.get("gomaxprocs")]
+        rep.cov["replay"] = "history of %d ops from the replay file" % len(rh["ops"]) if rh else "replay file holds no history for this engine"
     all_h = []
     for p in procs:
         env = {"GOMAXPROCS": str(p)} if p else None
@@ -553,6 +569,33 @@ THEOREMS.update({
 def run_perm_configs(rep, dh, wd, configs, label="perms"):
     """configs: list of (cfg_lines, probe_lines). Runs impl+model, diffs, judges with Spec.firstBearing."""
     from common import run_impl, run_model
+    if REPLAY is not None:
+        configs = [(REPLAY["config"], [REPLAY["probe"]])] if "probe" in REPLAY and "config" in REPLAY else []
+    # hypothesis ShapeOK of theorem C07_entry_matches_spec, evaluated for every pattern in use: the parser gives
+    # regexify(pattern) the anchored shape around the parse of the pattern (not so for e.g. `a)(b`); the
+    # specification judge is applied only to configurations where it holds
+    pats = []
+    for cfg, _ in configs:
+        for l in cfg:
+            f = l.split()
+            if f[0] == "perm":
+                path = "" if f[2] in (".", "-") else bytes.fromhex(f[2]).decode("utf-8", "replace")
+                w, _, a = path.partition("/")
+                pats += [w, a]
+    upats = sorted(set(pats))
+    shape = dict(zip(upats, [o.strip() for o in run_model(["jshape %s" % hx(p_) for p_ in upats])])) if upats else {}
+    rep.cov["patterns_shape_hypothesis_evaluated"] = len(upats)
+    rep.cov["patterns_shape_hypothesis_fails"] = sum(1 for v in shape.values() if v != "ok")
+
+    def shape_ok(cfg):
+        for l in cfg:
+            f = l.split()
+            if f[0] == "perm":
+                path = "" if f[2] in (".", "-") else bytes.fromhex(f[2]).decode("utf-8", "replace")
+                w, _, a = path.partition("/")
+                if shape.get(w) != "ok" or shape.get(a) != "ok":
+                    return False
+        return True
     lines = []
     for cfg, probes in configs:
         lines.append("reset")
@@ -580,7 +623,7 @@ def run_perm_configs(rep, dh, wd, configs, label="perms"):
             pos += 1
             if i_out != m_out and first_bad is None:
                 first_bad = (ci, pr, i_out, m_out)
-            if ib == "ok" and i_out in ("0", "1"):
+            if ib == "ok" and i_out in ("0", "1") and shape_ok(cfg):
                 f = pr.split()
                 jl.append("jcheck %s %s %s %s" % (f[1], f[2], f[3], i_out))
                 jidx.append((ci, pr))
@@ -2149,7 +2192,8 @@ THEOREMS.update({
     "C13": ("Dirk.Props.C13", ["Dirk.Dkg.C13_reject", "Dirk.Dkg.C13_no_account", "Dirk.Dkg.C13_legacy_counterexample"]),
     "C16": ("Dirk.Props.C16", ["Dirk.Dkg.C16_refuse_non_peer", "Dirk.Dkg.C16_share_owner"]),
     "C17": ("Dirk.Props.C17", ["Dirk.Dkg.C17_prepare_twice", "Dirk.Dkg.C17_requires_active", "Dirk.Dkg.C17_gone_after",
-                               "Dirk.Dkg.C17_commit_complete", "Dirk.Dkg.C17_legacy_counterexample"]),
+                               "Dirk.Dkg.C17_commit_complete", "Dirk.Dkg.C17_independent_names", "Dirk.Dkg.C17_lifecycle_all_histories",
+                               "Dirk.Dkg.C17_legacy_counterexample"]),
     "C03": ("Dirk.Props.C03", ["Dirk.C03_recorded_before_release", "Dirk.C03_refuses_after_crash", "Dirk.C03_released_never_slashable",
                                "Dirk.facts_sync_writes", "Dirk.facts_action_bytes"]),
     "C04": ("Dirk.Props.C04", ["Dirk.Conc.C04_mutual_exclusion", "Dirk.Conc.C04_commit_atomic", "Dirk.Conc.C04_linearizable",
@@ -2167,7 +2211,8 @@ THEOREMS.update({
     "C07": ("Dirk.Props.C07", ["Dirk.C07_scan_eq_spec", "Dirk.C07_default_deny", "Dirk.C07_unknown_client", "Dirk.C07_no_identity",
                                "Dirk.C07_refused_no_effect_att", "Dirk.C07_refused_no_effect_prop", "Dirk.C07_refused_no_effect_sign",
                                "Dirk.C07_refused_no_effect_atts", "Dirk.C07_resolved_account", "Dirk.C07_legacy_counterexample",
-                               "Dirk.C07_fixed_alternation"]),
+                               "Dirk.C07_fixed_alternation", "Dirk.C07_whole_name", "Dirk.C07_entry_matches_spec",
+                               "Dirk.Re.search_anchored", "Dirk.Re.matchFrom_iff"]),
     "C05": ("Dirk.Props.C05", ["Dirk.C05_generic_single", "Dirk.C05_generic_multi", "Dirk.C05_attest_only_attester",
                                "Dirk.C05_propose_only_proposer", "Dirk.C05_logs"]),
     "C06": ("Dirk.Props.C06", ["Dirk.C06_att", "Dirk.C06_prop", "Dirk.C06_sign", "Dirk.C06_atts", "Dirk.C06_msign",
